@@ -48,14 +48,25 @@ def write_config(cfg, name=None):
     return path
 
 
-def start(cfg, seed=42, allowed_roles=("Attacker", "Defender", "Benign")):
+def start(cfg, seed=42, allowed_roles=("Attacker", "Defender", "Benign"), path=None):
+    """Start the coordinator as the shipped entry point does (`NSGCoordinator(host, port, task_config)`): arguments that
+    have their default value are NOT passed, so that the defaults of the constructors are what runs.
+    path: use this configuration file (and keep it) instead of a temporary one."""
     from driver import Driver
     from AIDojoCoordinator.worlds.NSEGameCoordinator import NSGCoordinator
-    path = write_config(cfg)
+    kw = {}
+    if tuple(allowed_roles) != ("Attacker", "Defender", "Benign"):
+        kw["allowed_roles"] = list(allowed_roles)
+    if seed != 42:
+        kw["seed"] = seed
+    keep = path is not None
+    if path is None:
+        path = write_config(cfg)
     try:
-        drv = Driver(lambda: NSGCoordinator("127.0.0.1", 9000, path, allowed_roles=list(allowed_roles), seed=seed))
+        drv = Driver(lambda: NSGCoordinator("127.0.0.1", 9000, path, **kw))
     finally:
-        os.unlink(path)
+        if not keep:
+            os.unlink(path)
     return drv
 
 
